@@ -520,6 +520,8 @@ type LoopSpec struct {
 	// EndAsserts: 'loop N end assert [l] e' - checked at the end of every iteration (at the back edge), where the
 	// variables declared in the body are in scope and head(x) is x's value at the start of the iteration
 	EndAsserts []Clause
+	// Complete: 'loop N complete [l]' - no path leaves the loop except through its header's exit test
+	Complete *Clause
 }
 
 type Clause struct {
@@ -752,6 +754,18 @@ func parseSpecLines(file string, pkg string, lines []specLine) (*SpecFile, error
 			rest = strings.TrimSpace(strings.TrimLeft(rest, "0123456789"))
 			if strings.HasPrefix(rest, "binds ") {
 				cur.LoopBinds[n] = strings.TrimSpace(rest[len("binds "):])
+				continue
+			}
+			if strings.HasPrefix(rest, "complete") {
+				// loop N complete [l]: the loop is left only through its own exit test (the range is exhausted / the
+				// condition fails): no break, goto or return leaves it early - "every element is visited"
+				name, _ := splitLabel(strings.TrimSpace(rest[len("complete"):]))
+				ls := cur.Loops[n]
+				if ls == nil {
+					ls = &LoopSpec{}
+					cur.Loops[n] = ls
+				}
+				ls.Complete = &Clause{Text: "the loop is left only when its range is exhausted", Name: name, File: file, Line: d.line}
 				continue
 			}
 			if strings.HasPrefix(rest, "end assert") {
